@@ -76,6 +76,12 @@ class TD(typing.TypedDict):
 class TDPartial(typing.TypedDict, total=False):
     a: int
 
+import typing_extensions
+class TDExt(typing_extensions.TypedDict):
+    """declared through the backport: a different implementation (own metaclass) on Python < 3.13"""
+    a: int
+    b: typing_extensions.NotRequired[str]
+
 class Color(enum.Enum):
     red = 1
     blue = 2
@@ -205,7 +211,7 @@ class WithProps:
         return 2
 '''
 
-USER_CLASSES = ["DC", "FrozenDC", "DCSub", "NT", "NTc", "NTSub", "TD", "TDPartial", "Color", "IntE", "StrE", "Flg", "Plain",
+USER_CLASSES = ["DC", "FrozenDC", "DCSub", "NT", "NTc", "NTSub", "TD", "TDPartial", "TDExt", "Color", "IntE", "StrE", "Flg", "Plain",
                 "PlainSub", "Slotted", "Gen", "GenSub", "MyList", "MyDict", "MySet", "MyTuple", "MyStr", "MyBytes", "MyInt",
                 "MyFloat", "MyDate", "MyDateTime", "MyTime", "MyTimeDelta", "MyDecimal", "MyFraction", "MyUUID", "MyPath",
                 "MyMapping", "MySeq", "MyIter", "AbstractUser", "CallableCls", "WithProps"]
@@ -401,7 +407,7 @@ def facts(inspection):
             "inspectIsClass": bool(inspect.isclass(o)), "dictInMro": dict in mro, "hasTotal": hasattr(o, "__total__"),
             "hasFields": hasattr(o, "_fields"), "hasAnnotations": bool(getattr(o, "__annotations__", False)),
             "hasFromDict": hasattr(o, "from_dict"),
-            "isTypedDict": bool(typing.is_typeddict(o)), "isDataclass": bool(dataclasses.is_dataclass(o)) and is_cls,
+            "isTypedDict": bool(__import__("typing_extensions").is_typeddict(o)), "isDataclass": bool(dataclasses.is_dataclass(o)) and is_cls,
             # typelib's tables
             "inCollections": safe(lambda: o in inspection._COLLECTIONS),
             "builtin": safe(lambda: o in inspection.BUILTIN_TYPES),
